@@ -71,6 +71,22 @@ fn main() {
             }
             ctx.write_result();
         }
+        "bench" => {
+            let cx = mp4verif::adv::driver_context();
+            let b = mp4verif::refmp4::movie::build(&mp4verif::adv::kitchen_sink(0)).bytes;
+            let t0 = std::time::Instant::now();
+            let mut calls = 0;
+            for _ in 0..200 {
+                let ex = mp4verif::driver::exercise(&b, &cx);
+                calls = ex.calls.len();
+            }
+            println!("exercise(valid sink0, {} bytes): {:?} per input, {} calls", b.len(), t0.elapsed() / 200, calls);
+            let t0 = std::time::Instant::now();
+            for _ in 0..200 {
+                let _ = mp4verif::oracle::open(&b);
+            }
+            println!("open only: {:?}", t0.elapsed() / 200);
+        }
         _ => {
             eprintln!("unknown mode");
             std::process::exit(2);
